@@ -11,6 +11,8 @@ EVJSON = {"begin", "nextSeg", "skip", "spin", "raiseBody"}
 def lean_instr(ins):
     if ins[0] == "gs":
         return ["gs", ins[1], ins[2]]
+    if ins[0] == "rmv":
+        return ["rmv", ins[1], len(ins) > 2 and ins[2] == "fail"]
     return list(ins)
 
 
@@ -49,7 +51,7 @@ class C19(Property):
     case_timeout = 60
     workers = 8
     rule = ("2-4 real threads run random programs (segments of nested get_set / exit / body-raise / rmv over 1-4 keys whose 16-bit "
-            "blake2b indexes are equal, distinct or colliding; getters ok / raising after j parts / raising a BaseException) on a real "
+            "blake2b indexes are equal, distinct or colliding; getters ok / raising after j parts / raising a BaseException; the inner cacher's rmv ok / raising) on a real "
             "ConcurrentCacher(instrumented MemoryCacher, recording list, scheduler lock) under a baton scheduler (random or "
             "preemption-bounded schedules); plus DiskCacher cases (getter raising after j lines, file truncated at byte n, zero-length "
             "file) and a few free-running runs on a real multiprocessing RawArray+Lock. non-trivial = a scheduled run in which at least "
@@ -119,7 +121,7 @@ class C19(Property):
                 seg.append(["gs", k] + self.gen_getter(rng, parts, vctr, base_ok))
                 st.append(k)
             else:
-                seg.append(["rmv", k])
+                seg.append(["rmv", k, "fail"] if rng.chance(0.25) else ["rmv", k])
         if st and rng.chance(0.5):
             seg += [["exit"]] * len(st)     # explicit exits; otherwise the end of the segment closes the blocks
         return seg
@@ -204,6 +206,12 @@ class C19(Property):
                        "progs": [[[["gs", 0, 1], ["exit"]]], [[["gs", 1, 2], ["exit"]], [["rmv", 0]]]]})
             cs.append({"kind": "sched", "keys": ["a"], "parts": 2, "seed": sw, "sched": {"mode": "pb", "switch": [sw, 4]},
                        "progs": [[[["gs", 0, None, 1]], [["gs", 0, 5], ["exit"]]], [[["gs", 0, 6], ["raise"]]], [[["gs", 0, None, 2]]]]})
+        # the inner cacher's rmv raises while the write lock is held: the lock must be released, later callers must get through
+        for sw in range(0, 22, 3):
+            cs.append({"kind": "sched", "keys": ["a"], "parts": 1, "seed": sw, "sched": {"mode": "pb", "switch": [sw, 4]},
+                       "progs": [[[["gs", 0, 1], ["exit"]], [["rmv", 0, "fail"]], [["rmv", 0]]], [[["gs", 0, 2], ["exit"]], [["rmv", 0, "fail"]], [["gs", 0, 3], ["exit"]]]]})
+            cs.append({"kind": "sched", "keys": [p0, p1], "parts": 1, "seed": sw, "sched": {"mode": "pb", "switch": [sw, 6]},
+                       "progs": [[[["gs", 0, 1], ["exit"]], [["gs", 1, 4], ["rmv", 0, "fail"]]], [[["gs", 1, 2], ["exit"], ["rmv", 0, "fail"], ["rmv", 1]]]]})
         # re-entrant read, rmv of a key being read by the same caller (documented CobaException), body raising in a nest
         cs.append({"kind": "sched", "keys": ["a", "b"], "parts": 2, "seed": 1, "sched": rnd,
                    "progs": [[[["gs", 0, 1], ["gs", 0, 2], ["exit"], ["rmv", 0]]], [[["gs", 0, 3], ["exit"]], [["rmv", 0]]]]})
@@ -283,14 +291,25 @@ class C19(Property):
         kinds = {}
         for t, e in res["events"]:
             kinds[e[0]] = kinds.get(e[0], 0) + 1
-        for k in ("spin", "sw", "cpopFail", "crmv", "raiseBody", "cget"):
+        for k in ("spin", "sw", "cpopFail", "crmv", "crmvFail", "raiseBody", "cget"):
             if kinds.get(k):
                 tags.append("ev:" + k)
         if any(o == "rmv-while-reading:CobaException" for os_ in res["outcomes"] for o in os_):
             tags.append("rmv-while-reading")
         if res["base_raised"]:
             tags.append("getter-base-exception")
-        leak_sfx = ":after-getter-base-exception" if res["base_raised"] else ""
+        if res.get("rmv_failed"):
+            tags.append("inner-rmv-raised")
+        # did a BaseException from a getter really leave the write lock behind (no relW by that thread right after cpopFail)?
+        base_leak = False
+        if res["base_raised"]:
+            evs = res["events"]
+            for n_, (t, e) in enumerate(evs):
+                if e[0] == "cpopFail":
+                    nxt = next((e2 for t2, e2 in evs[n_ + 1:] if t2 == t), None)
+                    if nxt != ["relW", e[1]]:
+                        base_leak = True
+        leak_sfx = ":after-getter-base-exception" if base_leak else ""
 
         # (B) the property, directly on what the real code did -- only for programs inside the quantifier
         if wn:
@@ -327,14 +346,6 @@ class C19(Property):
             tags.append("outside-quantifier")
         # outside the quantifier (B) does not apply; the model mirrors the code with fixes/C19-getter-baseexception-lock-leak.diff,
         # so a run in which a BaseException leaked the lock cannot be compared with it
-        base_leak = False
-        if res["base_raised"]:
-            evs = res["events"]
-            for n_, (t, e) in enumerate(evs):
-                if e[0] == "cpopFail":
-                    nxt = next((e2 for t2, e2 in evs[n_ + 1:] if t2 == t), None)
-                    if nxt != ["relW", e[1]]:
-                        base_leak = True
         if base_leak and not wn:
             tags.append("outside-quantifier-base-leak")
 
